@@ -22,6 +22,10 @@ pub struct ClientSpec {
     pub bulk: u8,
     #[serde(default)]
     pub bulk_size: u16,
+    /// once connected, everything this client sends is lost for this long (the server may time the connection
+    /// out while the client still believes in it)
+    #[serde(default)]
+    pub mute_after_connect_ms: u32,
 }
 
 #[derive(Clone, Debug, Serialize, Deserialize)]
@@ -43,6 +47,9 @@ pub enum FKind {
     Error(u8),
     Disconnect,
     DisconnectAck,
+    /// not a forgery: a late network duplicate of a handshake frame that really travelled in this direction
+    /// earlier (selected among those on the wire so far)
+    Duplicate(u16),
 }
 
 #[derive(Clone, Debug, Serialize, Deserialize)]
@@ -98,8 +105,9 @@ fn client_strategy() -> impl Strategy<Value = ClientSpec> {
         5u16..3000,
         prop_oneof![2 => Just(0u8), 1 => 1u8..60],
         prop_oneof![Just(1448u16), Just(4000u16), 5u16..6000],
+        prop_oneof![4 => Just(0u32), 1 => 1_000u32..30_000],
     )
-        .prop_map(|(cfg, (l0, l1), (f0, f1), start_tick, echoes, echo_size, bulk, bulk_size)| ClientSpec { cfg, latency_us: [l0, l1], fates: [f0, f1], start_tick, echoes, echo_size, bulk, bulk_size })
+        .prop_map(|(cfg, (l0, l1), (f0, f1), start_tick, echoes, echo_size, bulk, bulk_size, mute_after_connect_ms)| ClientSpec { cfg, latency_us: [l0, l1], fates: [f0, f1], start_tick, echoes, echo_size, bulk, bulk_size, mute_after_connect_ms })
 }
 
 fn forge_strategy() -> impl Strategy<Value = Forge> {
@@ -114,6 +122,7 @@ fn forge_strategy() -> impl Strategy<Value = Forge> {
             3 => (0u8..3).prop_map(FKind::Error),
             1 => Just(FKind::Disconnect),
             1 => Just(FKind::DisconnectAck),
+            4 => any::<u16>().prop_map(FKind::Duplicate),
         ],
         prop_oneof![
             3 => any::<u32>().prop_map(NonceSel::Random),
@@ -171,8 +180,13 @@ impl Check for C07 {
             60u16..tier.pick(400, 1200),
             prop_oneof![Just(10_000u32), Just(30_000u32), Just(100_000u32), Just(400_000u32)],
         )
-            .prop_map(|(seed, (ep, max_active, max_total), clients, forges, ticks, dt_us)| {
+            .prop_map(|(seed, (mut ep, max_active, max_total), clients, forges, ticks, dt_us)| {
                 let n = clients.len() as u32;
+                // a third of the servers give up on a silent peer long before the clients do
+                ep.active_timeout_ms = match seed % 3 {
+                    0 => 1500 + (seed >> 8) as u32 % 3000,
+                    _ => 20000,
+                };
                 // 0 stands for "exactly as many as there are clients"
                 let max_active = if max_active == 0 { n } else { max_active };
                 let max_total = if max_total == 0 { n } else { max_total };
@@ -190,7 +204,7 @@ impl Check for C07 {
     }
 
     fn rule(&self) -> String {
-        "case = World with a real Server and 1-4 (quick) real Clients whose configurations are generated independently (compatible or not), each on its own link with per-datagram fates for the handshake frames (delay up to 3 s, drop, duplicate up to 5 s apart, corrupt), starting at generated ticks (simultaneous handshakes), plus forged handshake / disconnect frames injected at generated moments with spoofed source addresses (a client's address towards the server, the server's address towards a client) carrying random nonces, genuine nonces +-1, the genuine current nonce, or the nonce of an earlier attempt. After Connect each client runs an ordered echo stream through the server, and the server may push a burst of Reliable packets larger than the client's advertised receive allocation. Monitor oracle over wire and events: server Connect(a) only after an ACK from a carrying the nonce of the latest SYN-ACK sent to a was delivered; client Connect only after a SYN-ACK echoing its SYN nonce was delivered; at most one Connect per client and per server-side connection; the server's Connect never precedes the client's, and once a client is connected and frames are delivered promptly the server reports its Connect within three SYN-ACK repeat intervals (as long as its 22 s handshake budget and the client's timeout allow); first data frame ids equal the advertised nonces; refusals carry the error the documented rule demands and the client reports the same error (ServerFull only when the server's limits are below the number of clients: a client is never refused on account of its own pending entry); no Error event on a client that has connected unless it is a Timeout; echo streams arrive in order without gaps for Reliable packets; bytes per second on the wire stay within min(local max_send_rate, peer max_receive_rate); the bytes the server has outstanding towards a client (fragment-rounded, judged from the wire and the acks delivered) never exceed the max_receive_alloc that client advertised. Non-trivial = at least one handshake frame was lost, duplicated, corrupted or forged. Distinct = distinct serialised case.".into()
+        "case = World with a real Server and 1-4 (quick) real Clients whose configurations are generated independently (compatible or not), each on its own link with per-datagram fates for the handshake frames (delay up to 3 s, drop, duplicate up to 5 s apart, corrupt), starting at generated ticks (simultaneous handshakes), plus late network duplicates of handshake frames that really travelled (never counted as forgeries), clients whose frames are lost for 1-30 s after they connected while a third of the servers time silent peers out after 1.5-4.5 s, and forged handshake / disconnect frames injected at generated moments with spoofed source addresses (a client's address towards the server, the server's address towards a client) carrying random nonces, genuine nonces +-1, the genuine current nonce, or the nonce of an earlier attempt. After Connect each client runs an ordered echo stream through the server, and the server may push a burst of Reliable packets larger than the client's advertised receive allocation. Monitor oracle over wire and events: server Connect(a) only after an ACK from a carrying the nonce of the latest SYN-ACK sent to a was delivered; client Connect only after a SYN-ACK echoing its SYN nonce was delivered; at most one Connect per client and per server-side connection; the server's Connect never precedes the client's, and once a client is connected and frames are delivered promptly the server reports its Connect within three SYN-ACK repeat intervals (as long as its 22 s handshake budget and the client's timeout allow); first data frame ids equal the advertised nonces; every connection the server reports was completed with the server nonce the client accepted (a connection is never re-created behind a living client's back); refusals carry the error the documented rule demands and the client reports the same error (ServerFull only when the server's limits are below the number of clients: a client is never refused on account of its own pending entry); no Error event on a client that has connected unless it is a Timeout; echo streams arrive in order without gaps for Reliable packets; bytes per second on the wire stay within min(local max_send_rate, peer max_receive_rate); the bytes the server has outstanding towards a client (fragment-rounded, judged from the wire and the acks delivered) never exceed the max_receive_alloc that client advertised. Non-trivial = at least one handshake frame was lost, duplicated, corrupted or forged. Distinct = distinct serialised case.".into()
     }
 
     fn assumptions(&self) -> Vec<String> {
@@ -216,6 +230,7 @@ impl Check for C07 {
         let mut bulk_sent: Vec<u32> = vec![0; n];
         let mut bulk_recv: Vec<u32> = vec![0; n];
         let mut forged = 0u32;
+        let mut duplicated = 0u32;
         let mut forged_current_ack: std::collections::HashSet<SocketAddr> = std::collections::HashSet::new();
         let mut forged_current_error: std::collections::HashSet<SocketAddr> = std::collections::HashSet::new();
         let mut forged_disconnect: std::collections::HashSet<SocketAddr> = std::collections::HashSet::new();
@@ -243,6 +258,16 @@ impl Check for C07 {
                 let cn = obs.client_syn_nonce.get(&caddr).copied();
                 let sn = obs.server_synack.get(&caddr).and_then(|v| v.last()).map(|p| p.0);
                 let first_sn = obs.server_synack.get(&caddr).and_then(|v| v.first()).map(|p| p.0);
+                if let FKind::Duplicate(sel) = &f.kind {
+                    let (from, to) = if f.to_server { (caddr, w.server_addr) } else { (w.server_addr, caddr) };
+                    let cands: Vec<usize> = w.wire.iter().enumerate().filter(|(_, r)| r.from == from && r.to == to && r.bytes.first().map_or(false, |b| *b < 4)).map(|(j, _)| j).collect();
+                    if !cands.is_empty() {
+                        let bytes = w.wire[cands[crate::engine::pick_index(*sel, cands.len())]].bytes.clone();
+                        w.send_raw(from, to, &bytes, 0);
+                        duplicated += 1;
+                    }
+                    continue;
+                }
                 let nonce = match &f.nonce {
                     NonceSel::Random(v) => *v,
                     NonceSel::ClientNonce(o) => cn.unwrap_or(12345).wrapping_add(*o as i32 as u32),
@@ -269,6 +294,7 @@ impl Check for C07 {
                     }),
                     FKind::Disconnect => Frame::DisconnectFrame(DisconnectFrame {}),
                     FKind::DisconnectAck => Frame::DisconnectAckFrame(DisconnectAckFrame {}),
+                    FKind::Duplicate(_) => unreachable!(),
                 };
                 forged_any.insert(caddr);
                 // bookkeeping: forged frames that happen to carry the genuine nonce are on-path attacks
@@ -337,6 +363,9 @@ impl Check for C07 {
                                 return CaseResult::fail("oracle:c07:client_connect_twice", format!("client {k} reported Connect a second time at tick {tick}"));
                             }
                             connected_at[k] = Some(tick);
+                            if c.clients[k].mute_after_connect_ms > 0 {
+                                w.links[ci].blackout_until_us[0] = w.now_us + c.clients[k].mute_after_connect_ms as u64 * 1000;
+                            }
                         }
                         CEv::Receive(data) if parse_world_payload(&data).map_or(false, |p| p.0 == 150) => {
                             bulk_recv[k] += 1;
@@ -368,10 +397,14 @@ impl Check for C07 {
         // ACKs delivered to the server, per source address: (event seq, nonce_ack)
         let mut acks_delivered: HashMap<SocketAddr, Vec<(u64, u32)>> = HashMap::new();
         let mut synacks_delivered: HashMap<SocketAddr, Vec<(u64, u32)>> = HashMap::new();
+        let mut synacks_delivered_full: HashMap<SocketAddr, Vec<(u64, u32, u32)>> = HashMap::new();
         for d in w.delivered.iter() {
             match Frame::read(&d.bytes) {
                 Some(Frame::HandshakeAckFrame(f)) if d.to == w.server_addr => acks_delivered.entry(d.from).or_default().push((d.seq, f.nonce_ack)),
-                Some(Frame::HandshakeSynAckFrame(f)) if d.from == w.server_addr => synacks_delivered.entry(d.to).or_default().push((d.seq, f.nonce_ack)),
+                Some(Frame::HandshakeSynAckFrame(f)) if d.from == w.server_addr => {
+                    synacks_delivered.entry(d.to).or_default().push((d.seq, f.nonce_ack));
+                    synacks_delivered_full.entry(d.to).or_default().push((d.seq, f.nonce_ack, f.nonce));
+                }
                 _ => {}
             }
         }
@@ -443,6 +476,30 @@ impl Check for C07 {
                 let terminals = w.server_events.iter().filter(|(_, _, e)| matches!(e, SEv::Disconnect(x) | SEv::Error(x, _) if x == &a)).count();
                 if terminals == 0 {
                     return CaseResult::fail("oracle:c07:server_connect_twice", format!("server reported Connect({a}) {} times without a terminal event in between", server_connects[&a]));
+                }
+            }
+            // both ends agree on the starting sequence numbers of EVERY connection the server reports: the SYN-ACK whose
+            // acknowledgement connects the server carries the server nonce of the SYN-ACK the client accepted. A late
+            // duplicate of the client's SYN that reaches a server which has meanwhile forgotten the connection must not
+            // be completed into a second server-side connection by the client that still lives in the first one.
+            if !forged_any.contains(&a) {
+                let c_conn_seq = slot.events.iter().find(|(_, _, e)| matches!(e, CEv::Connect)).map(|p| p.0);
+                if let (Some(cseq), Some(mine)) = (c_conn_seq, my_nonce) {
+                    let accepted = synacks_delivered_full.get(&a).and_then(|v| v.iter().filter(|(s, na, _)| *s < cseq && *na == mine).last().map(|p| p.2));
+                    for (sseq, st, e) in w.server_events.iter() {
+                        if !matches!(e, SEv::Connect(x) if x == &a) {
+                            continue;
+                        }
+                        let sn = obs.server_synack.get(&a).and_then(|v| v.iter().filter(|p| p.1 < *sseq).last()).map(|p| p.0);
+                        if let (Some(sn), Some(acc)) = (sn, accepted) {
+                            if sn != acc {
+                                return CaseResult::fail(
+                                    "oracle:c07:connection_recreated_with_nonce_the_client_never_accepted",
+                                    format!("server reported Connect({a}) at t={st} us for a handshake whose SYN-ACK carried server nonce {sn}; client {k} connected once, accepting server nonce {acc}, and never started another attempt: the two ends do not agree on the starting sequence numbers of this connection ({duplicated} late duplicates of genuine handshake frames were delivered, no forged frame touched this address)"),
+                                );
+                            }
+                        }
+                    }
                 }
             }
             // exactly one Connect on EACH side: the server's Connect follows the client's (the client acknowledges the
